@@ -44,7 +44,8 @@ CONSTANTS Conns,       \* connection ids
           MaxNow,      \* clock bound (0: time never advances)
           DrainMode,   \* "inner": tcp.go:307 as written (drain through the decrypting reader); "raw": drain the raw conn
           Strict,      \* TRUE: a client does not send at the very instant its deadline is due (behaviour generation)
-          WithServe    \* TRUE: the listener may be closed while handlers run
+          WithServe,   \* TRUE: the listener may be closed while handlers run
+          Hist         \* TRUE: keep the action history tr (behaviour generation); FALSE in exhaustive runs
 
 VARIABLES st,    \* [Conns -> mechanism state of one connection incl. the two wires]
           ob,    \* [Conns -> scenario ghosts + what the observers saw]
@@ -90,11 +91,12 @@ Init == /\ st \in [Conns -> {InitConn(h, k) : h \in HsKinds, k \in TgtKinds}]
         /\ tr = <<>>
 
 Ev(a, c, v) == [a |-> a, c |-> c, v |-> v, t |-> now]
+Log(e) == IF Hist THEN Append(tr, e) ELSE tr
 
 \* one step of connection c: new mechanism record s, new observation record o, history event
 Step(c, s, o, a, v) == /\ st' = [st EXCEPT ![c] = s]
                        /\ ob' = [ob EXCEPT ![c] = o]
-                       /\ tr' = Append(tr, Ev(a, c, v))
+                       /\ tr' = Log(Ev(a, c, v))
                        /\ UNCHANGED <<now, lst, srv>>
 
 Due(c) == st[c].dl # 0 /\ now >= st[c].dl
@@ -161,7 +163,7 @@ CloseListener ==
   /\ lst' = "closed"
   \* connections still in the kernel backlog are reset by the kernel, no handler ever sees them
   /\ st' = [c \in Conns |-> IF st[c].pc = "backlog" THEN [st[c] EXCEPT !.pc = "reset", !.csock = "closed"] ELSE st[c]]
-  /\ tr' = Append(tr, Ev("CloseListener", 0, 0))
+  /\ tr' = Log(Ev("CloseListener", 0, 0))
   /\ UNCHANGED <<ob, now, srv>>
 
 (* ------------------------------------------------------------------------ *)
@@ -174,13 +176,13 @@ Accept(c) == /\ srv = "accept" /\ lst = "open" /\ st[c].pc = "backlog"
              /\ Step(c, [st[c] EXCEPT !.pc = "start"], ob[c], "Accept", 0)
 \* :238-240 accept returned ErrClosed
 ServeBreak == /\ srv = "accept" /\ lst = "closed" /\ srv' = "cancel"
-              /\ tr' = Append(tr, Ev("ServeBreak", 0, 0)) /\ UNCHANGED <<st, ob, now, lst>>
+              /\ tr' = Log(Ev("ServeBreak", 0, 0)) /\ UNCHANGED <<st, ob, now, lst>>
 \* :235 deferred contextCancel() runs BEFORE the wait (handlers are told, not killed)
 ServeCancel == /\ srv = "cancel" /\ srv' = "wait"
-               /\ tr' = Append(tr, Ev("ServeCancel", 0, 0)) /\ UNCHANGED <<st, ob, now, lst>>
+               /\ tr' = Log(Ev("ServeCancel", 0, 0)) /\ UNCHANGED <<st, ob, now, lst>>
 \* :233 deferred running.Wait()
 ServeReturn == /\ srv = "wait" /\ Running = {} /\ srv' = "ret"
-               /\ tr' = Append(tr, Ev("ServeReturn", 0, 0)) /\ UNCHANGED <<st, ob, now, lst>>
+               /\ tr' = Log(Ev("ServeReturn", 0, 0)) /\ UNCHANGED <<st, ob, now, lst>>
 
 (* ------------------------------------------------------------------------ *)
 (* Handle / handleConnection: pre-authentication                            *)
@@ -385,7 +387,7 @@ ServeBlocked == (srv = "accept" /\ lst = "open") \/ (srv = "wait" /\ Running # {
 Quiet == ServeBlocked /\ \A c \in Conns : MainBlocked(c) /\ AuxBlocked(c)
 
 Tick == /\ now < MaxNow /\ Quiet
-        /\ now' = now + 1 /\ tr' = Append(tr, Ev("Tick", 0, now + 1))
+        /\ now' = now + 1 /\ tr' = Log(Ev("Tick", 0, now + 1))
         /\ UNCHANGED <<st, ob, lst, srv>>
 
 (* ------------------------------------------------------------------------ *)
@@ -485,7 +487,7 @@ C06_NotStuckAfterDeadline ==
 \* after authentication an invalid stream is drained: while the client keeps its side open the proxy neither closes,
 \* nor half-closes towards the target, nor (unless the target ended the stream on its own) towards the client
 C06_DrainHolds ==
-  \A c \in Conns : st[c].hs = "valid" /\ HasBad(c) /\ ~st[c].cfin /\ st[c].tk = "ok" /\ ~st[c].trst =>
+  \A c \in Conns : MustAuth(c) /\ HasBad(c) /\ ~st[c].cfin /\ st[c].tk = "ok" /\ ~st[c].trst =>
      /\ ~Closed(c)
      /\ ~Has(ob[c].tlog, 0)
      /\ (Has(ob[c].clog, 0) => st[c].tfin /\ ~ob[c].tfinPolite)
